@@ -274,6 +274,15 @@ def verify_infix_order(run, rp):
                     out.append(by["S3e"].body(a, b))
                 out += [by["S4"].body(a, ns - 1), by["S2"].body(a, ns - 1)]
             out.append(by["S3e"].body(ns - 1, ns))
+            # ... and at the positions the goals speak about (skolem positions of the position clauses, the position on top of the stack)
+            st_ = p.env["stack"]
+            pks = [z3.Int(f"{nm}.{v}*") for nm, v in (("C1", "a"), ("Q2", "a"), ("Q3", "a"), ("E1", "a"), ("E2", "a"), ("O", "a"), ("O", "b"), ("E4", "a"), ("S5", "b"), ("E2", "b"))] + [st_.P[ns - 1]]
+            for a in pks:
+                out += [by["C1"].body(a), by["Q2"].body(a), by["Q3"].body(a), by["E1"].body(a)]
+            out += [by["O"].body(z3.Int("O.a*"), z3.Int("O.b*")), by["E2"].body(z3.Int("E2.a*"), z3.Int("E2.b*")), by["S5"].body(ns - 1, z3.Int("E2.b*")), by["S5"].body(z3.Int("S5.a*"), z3.Int("S5.b*"))]
+            out += [by["O"].body(z3.Int("O.a*"), st_.P[ns - 1]), by["O"].body(st_.P[ns - 1], z3.Int("O.b*"))]
+            if "E4" in by:
+                out += [by["E4"].body(z3.Int("O.a*"), ns - 1), by["E4"].body(z3.Int("O.b*"), ns - 1), by["E4"].body(z3.Int("E4.a*"), z3.Int("E4.b*")), by["E4"].body(z3.Int("E4.a*"), ns - 1)]
             return out
         return inv, inst
 
@@ -298,7 +307,10 @@ def verify_infix_order(run, rp):
     formula = z3.Const("formula", Str)
     outs = ex.run_fn(fn, HPath({"cls": "Function", "formula": StrV(formula)}, list(facts0), H0))
     split_invariants(ex)
-    emit(run, ex, fq, [], rp, label=fq + "/order")
+    emit(run, ex, fq, [], rp, label=fq + "/order", retries=2)
+    def radd(o):
+        o.retries = 2
+        run.add(o)
     n_ret = 0
     for i, (kind, val, q) in enumerate(outs):
         if kind == "raise":
@@ -312,18 +324,24 @@ def verify_infix_order(run, rp):
         nq = z3.Length(qu.q)
         QP, EM, ES = qu.QP, qu.EM, qu.ES
         i_, j_, m_, x_, y_ = z3.Int("i*"), z3.Int("j*"), z3.Int("m*"), z3.Int("x*"), z3.Int("y*")
-        hy = q.pc + str_distinct()
+        # instances of the (assumed, quantified) flush invariant at the indices the postconditions speak about
+        by = {c.name: c for c in clauses(sp, st, qu, sp.n, sp.n, False, sp.n)}
+        ground = []
+        for a in (i_, x_, y_, QP[m_]):
+            ground += [by["C1"].body(a), by["Q2"].body(a), by["Q3"].body(a), by["E1"].body(a)]
+        ground += [by["E2"].body(i_, j_), by["Q1"].body(m_), by["Q1"].body(EM[i_]), by["O"].body(x_, y_)]
+        hy = q.pc + ground + str_distinct()
         m = {"replay": rp}
-        run.add(Obl(f"{fq}/order/ensures.postfix_is_the_joined_queue{tag}", hy, val.t == join_fn(qu.q), fn=fq, meta=m))
-        run.add(Obl(f"{fq}/order/ensures.every_operand_and_operator_is_emitted_once{tag}", hy,
+        radd(Obl(f"{fq}/order/ensures.postfix_is_the_joined_queue{tag}", hy, val.t == join_fn(qu.q), fn=fq, meta=m))
+        radd(Obl(f"{fq}/order/ensures.every_operand_and_operator_is_emitted_once{tag}", hy,
                     z3.And(z3.Implies(z3.And(0 <= i_, i_ < sp.n, sp.kept(i_)), z3.And(0 <= EM[i_], EM[i_] < nq, QP[EM[i_]] == i_)),
                            z3.Implies(z3.And(0 <= m_, m_ < nq), z3.And(0 <= QP[m_], QP[m_] < sp.n, sp.kept(QP[m_]), qu.q[m_] == sp.T[QP[m_]], EM[QP[m_]] == m_))), fn=fq, meta=m))
-        run.add(Obl(f"{fq}/order/ensures.operand_emitted_in_its_own_step{tag}", hy, z3.Implies(z3.And(0 <= i_, i_ < sp.n, sp.is_operand(i_)), ES[i_] == i_), fn=fq, meta=m))
-        run.add(Obl(f"{fq}/order/ensures.operator_emitted_at_its_first_closer{tag}", hy,
+        radd(Obl(f"{fq}/order/ensures.operand_emitted_in_its_own_step{tag}", hy, z3.Implies(z3.And(0 <= i_, i_ < sp.n, sp.is_operand(i_)), ES[i_] == i_), fn=fq, meta=m))
+        radd(Obl(f"{fq}/order/ensures.operator_emitted_at_its_first_closer{tag}", hy,
                     z3.Implies(z3.And(0 <= i_, i_ < sp.n, sp.is_op(i_)),
                                z3.And(i_ < ES[i_], ES[i_] <= sp.n, z3.Implies(ES[i_] < sp.n, sp.closes(ES[i_], i_)), z3.Implies(z3.And(i_ < j_, j_ < ES[i_]), z3.Not(sp.closes(j_, i_))))),
                     fn=fq, meta=m))
-        run.add(Obl(f"{fq}/order/ensures.queue_ordered_by_step_then_position_descending{tag}", hy,
+        radd(Obl(f"{fq}/order/ensures.queue_ordered_by_step_then_position_descending{tag}", hy,
                     z3.Implies(z3.And(0 <= x_, x_ < sp.n, sp.kept(x_), 0 <= y_, y_ < sp.n, sp.kept(y_)),
                                z3.And(z3.Implies(ES[x_] < ES[y_], EM[x_] < EM[y_]), z3.Implies(z3.And(ES[x_] == ES[y_], x_ > y_), EM[x_] < EM[y_]))), fn=fq, meta=m))
     run.add(static(f"{fq}/order/returns", n_ret > 0, f"{n_ret} returning path(s)", fn=fq))
